@@ -206,7 +206,7 @@ func checkC10(c *harness.Check) {
 		"position fen " + F10 + " moves a1a8",
 		"position fen r3k2r/8/8/8/8/8/8/R3K2R w KQkq - 0 0", // the same position with other clocks: full-move number 0 ...
 		"position fen r3k2r/8/8/8/8/8/8/R3K2R w KQkq - 5 1", // ... and a running half-move clock
-		"position fen r3k2r/8/8/8/8/8/8/R3K2R w K - 0 1", // two FENs that differ ONLY in the case of one letter (whose castling right)
+		"position fen r3k2r/8/8/8/8/8/8/R3K2R w K - 0 1",    // two FENs that differ ONLY in the case of one letter (whose castling right)
 		"position fen r3k2r/8/8/8/8/8/8/R3K2R w k - 0 1",
 		"position  startpos   moves  g1f3 ", // the g1f3 line again with other white space between the tokens
 		"ucinewgame",
